@@ -238,6 +238,8 @@ Inductive op :=
 | OPublish (id : N) (with_body : bool) (prune : bool)
 | OImport (r : row)
 | OAck (id : N)
+| OAckHeld (r : row)
+| OOther (r : row)
 | OReplay.
 
 (** Sequence-number part of [validate_prunable_backlink] against the latest stored entry. *)
@@ -247,18 +249,26 @@ Definition ingest_accepts (d : durable) (r : row) : bool :=
   | Some h => (negb (N.eqb (r_seq r) 0) && r_prune r) || N.eqb (r_seq r) (h + 1)
   end.
 
+(** forge.rs: the next operation of the node's own log for this topic. *)
+Definition pub_row (tlog : logid) (me : author) (d : durable) (id : N) (wb pr : bool) : row :=
+  {| r_id := id; r_author := me; r_log := tlog;
+     r_seq := match max_seq (rows d) (me, tlog) with None => 0%N | Some h => (h + 1)%N end;
+     r_body := if wb then Body else NoBody; r_prune := pr |}.
+
+(** [OAck] is [StreamSubscription::ack(hash)] (looks the operation up in the store first),
+    [OAckHeld] is [ProcessedOperation::ack] on an event the application kept (no lookup),
+    [OOther] is a publish on another topic of the same node (a row in another log). *)
 Definition plan (tlog : logid) (p : policy) (me : author) (d : durable) (o : op) : list label :=
   match o with
   | OPublish id wb pr =>
-      let s := match max_seq (rows d) (me, tlog) with None => 0%N | Some h => (h + 1)%N end in
-      let r := {| r_id := id; r_author := me; r_log := tlog; r_seq := s;
-                  r_body := if wb then Body else NoBody; r_prune := pr |} in
-      LStore r :: process_labels p r
+      let r := pub_row tlog me d id wb pr in LStore r :: process_labels p r
   | OImport r =>
       if has_id (r_id r) (rows d) then process_labels p r
       else if ingest_accepts d r then LStore r :: process_labels p r
       else []
   | OAck id => match find_id id (rows d) with Some r => [LAck r] | None => [] end
+  | OAckHeld r => [LAck r]
+  | OOther r => [LStore r]
   | OReplay => replay_plan p d
   end.
 
